@@ -23,8 +23,8 @@ RULE = ("embedded: ytk, ptk, cidar, ecoflex, plant - every item (exhaustive, 362
         "CIDAR and EcoFlex part families written as GenBank under stems with dots/dashes/spaces/unicode, extensions from {gb, gbk} and "
         "unsupported {gbff, txt, fasta, GB, gb.bak}, custom extensions= tuples, sub-directories (one named like a GenBank file) holding "
         "plasmids, junk files; absent keys include sub-directory names, junk stems, unsupported-extension stems, keys with path "
-        "separators and parent references; combinations: sequences of 1..5 members drawn with repetition from embedded and generated "
-        "registries sharing ids. Non-trivial = a registry with >= 1 key whose every item was looked up, or a combination with a shared id; "
+        "separators and parent references; combinations: sequences of 1..5 members drawn with repetition from embedded registries, generated "
+        "directories sharing ids with them, and nested combinations of these. Non-trivial = a registry with >= 1 key whose every item was looked up, or a combination with a shared id; "
         "distinct = distinct registry contents.")
 ASSUMPTIONS = ["directory entries that are typed GenBank plasmids have pairwise distinct stems", "the eLabFTW (network) registry is out of scope"]
 FLOORS = {"c20_items_checked": 400, "c20_absent_keys_checked": 300, "c20_directories": 40, "c20_combinations": 30, "c20_shared_id_checks": 20, "c20_embedded_registries": 5}
@@ -309,6 +309,17 @@ def execute(mat, ctx):
                     f.write(gb_text(other))
             R = rb.FilesystemRegistry(F, pbase)
             descr.append("dir(%s)" % rname)
+        if rng.random() < 0.35:
+            # a member that is itself a combination (possibly of several registries)
+            inner = rb.CombinedRegistry()
+            inner << R
+            if rng.random() < 0.5:
+                extra = rng.choice(["ytk", "ptk", "cidar", "ecoflex", "plant"])
+                inner << _emb(extra)
+                descr[-1] = "combined(%s,%s)" % (descr[-1], extra)
+            else:
+                descr[-1] = "combined(%s)" % descr[-1]
+            R = inner
         members.append(R)
     C = rb.CombinedRegistry()
     member_keys = []
